@@ -178,7 +178,7 @@ def stored(p, sub, kind):
 
 def check_activation(w, sim, p, fail):
     """The live table must reflect the stored configuration; then probe behaviour."""
-    if p.degenerate() or (p.tx and p.typ < 254):
+    if p.degenerate():
         return True
     r = sim.ret(("tpdo %d" if p.tx else "rpdo %d") % p.num)
     ident = int(r[0], 16)
@@ -202,9 +202,42 @@ def check_activation(w, sim, p, fail):
         if total > 8:
             return fail("activation/too-long", "active PDO maps %d bytes" % total)
     # behavioural probe
+    if p.tx and p.typ <= 240:
+        # a synchronous TPDO is driven by SYNC only: nothing in 120 ticks without SYNC, exactly one frame on the n-th SYNC
+        if not (1 <= p.typ <= 3):
+            return True
+        cid = p.cob & 0x7FF
+        sim.cmd("tick 12")            # let a transmission deferred by the inhibit time (SYNC of an earlier probe) go out first
+        evs = sim.cmd("tick 120")
+        got = [(c, d) for (t, c, dlc, d, f) in S.txs(evs) if c == cid]
+        if got:
+            return fail("behaviour/sync-tpdo-without-sync", "TPDO%d (type %d, %s) sent %d frame(s) within 120 ticks although no SYNC was received" % (
+                p.num, p.typ, "active" if active else "inactive", len(got)))
+        data = b""
+        for i in range(p.count):
+            e = p.ent[i]
+            ob = w.objs[(e >> 16, (e >> 8) & 0xFF)]
+            data += (ob[2] & ((1 << (e & 0xFF)) - 1)).to_bytes((e & 0xFF) // 8, "little")
+        seen = []
+        for k in range(p.typ):
+            evs = sim.rx(0x80, b"")
+            seen.append([(c, d) for (t, c, dlc, d, f) in S.txs(evs) if c == cid])
+        evs = sim.cmd("tick 12")      # a transmission deferred by a running inhibit time
+        seen.append([(c, d) for (t, c, dlc, d, f) in S.txs(evs) if c == cid])
+        want = [[] for _ in range(p.typ - 1)] + [[(cid, data)] if active else []]
+        # the SYNC counter of this TPDO starts at its activation; other PDOs' probes may have consumed SYNCs: accept any rotation with one frame
+        flat = [x for sl in seen for x in sl]
+        if flat != ([(cid, data)] if active else []):
+            return fail("behaviour/sync-tpdo", "TPDO%d type %d (%s): %d SYNCs produced %r, reference exactly %r" % (
+                p.num, p.typ, "active" if active else "inactive", p.typ, [("%x" % c, d.hex()) for c, d in flat], [("%x" % cid, data.hex())] if active else []))
+        return True
     if p.tx:
+        sim.cmd("tick 12")            # inhibit time started by an event-timer transmission during an earlier probe
         evs = sim.cmd("trigpdo %d" % p.num)
-        got = [(cid, d) for (t, cid, dlc, d, f) in S.txs(evs)]
+        got = [(cid, d) for (t, cid, dlc, d, f) in S.txs(evs) if cid == (p.cob & 0x7FF)]
+        if not got and p.inhibit > 0:
+            evs = sim.cmd("tick 12")  # deferred to the end of the inhibit time
+            got = [(cid, d) for (t, cid, dlc, d, f) in S.txs(evs) if cid == (p.cob & 0x7FF)][:1]
         want = []
         if active:
             data = b""
@@ -265,36 +298,57 @@ def run_sequence(res, exe, rng, first, npdo, forced=None):
                             return
                 continue
             p = rng.choice(w.pdos)
-            idx, sub, width, value, kind = gen_write(rng, w, p)
-            exp = expect(w, p, idx, sub, value, kind)
-            state = ("valid" if p.valid() else "invalid", "count0" if p.count == 0 else "countN", "op" if w.mode == OP else "preop", "tx" if p.tx else "rx")
-            script.append("write %04x:%d = %x (%s, PDO %s)" % (idx, sub, value, kind, "/".join(state)))
-            old = stored(p, sub, kind)
-            code, evs = S.sdo_write(sim, nid, idx, sub, value, width)
-            for iv in S.invs(evs):
-                fail("inv", "invariant " + iv); return
-            res.states.add((kind,) + state + (exp[0],))
-            if exp[0] == "ok":
-                if code is not None:
-                    fail("verdict/refused/%s" % kind, "valid write refused with %r" % (("%08x" % code) if isinstance(code, int) else code)); return
-            elif exp[0] == "abort":
+            burst = []
+            x = rng.random()
+            if x < 0.04:
+                # all eight slots with 32-bit entries, then count 8 (256 bits) / 5 / 2
+                sub32 = [ss for ss in (2, 5) if w.entry_verdict(p, gen.maplink(0x2300, ss, 32)) is None]
+                if sub32:
+                    burst = [(p.comm(), 1, 4, p.cob | 0x80000000, "cob"), (p.mapi(), 0, 1, 0, "count")]
+                    burst += [(p.mapi(), k, 4, gen.maplink(0x2300, rng.choice(sub32), 32), "entry") for k in range(1, 9)]
+                    burst += [(p.mapi(), 0, 1, rng.choice([8, 8, 5, 3]), "count"), (p.mapi(), 0, 1, 2, "count")]
+            elif x < 0.08 and p.tx:
+                # an event-driven TPDO with a running event time is switched to a synchronous type and re-validated
+                good = gen.maplink(0x2300, 3, 8)
+                burst = [(p.comm(), 1, 4, p.cob | 0x80000000, "cob"), (p.comm(), 2, 1, 254, "type"), (p.mapi(), 0, 1, 0, "count"), (p.mapi(), 1, 4, good, "entry"),
+                         (p.mapi(), 0, 1, 1, "count"), (p.comm(), 5, 2, 5, "event"), (p.comm(), 1, 4, p.cob & ~0x80000000, "cob"), ("tick", 12),
+                         (p.comm(), 1, 4, p.cob | 0x80000000, "cob"), (p.comm(), 2, 1, rng.choice([1, 2]), "type"), (p.comm(), 1, 4, p.cob & ~0x80000000, "cob")]
+            if not burst:
+                burst = [gen_write(rng, w, p)]
+            for (idx, sub, width, value, kind) in [b if len(b) == 5 else (b[0], b[1], 0, 0, "tick") for b in burst]:
+              if kind == "tick":
+                sim.cmd("tick %d" % sub)
+                continue
+              if True:
+                exp = expect(w, p, idx, sub, value, kind)
+                state = ("valid" if p.valid() else "invalid", "count0" if p.count == 0 else "countN", "op" if w.mode == OP else "preop", "tx" if p.tx else "rx")
+                script.append("write %04x:%d = %x (%s, PDO %s)" % (idx, sub, value, kind, "/".join(state)))
+                old = stored(p, sub, kind)
+                code, evs = S.sdo_write(sim, nid, idx, sub, value, width)
+                for iv in S.invs(evs):
+                    fail("inv", "invariant " + iv); return
+                res.states.add((kind,) + state + (exp[0],))
+                if exp[0] == "ok":
+                    if code is not None:
+                        fail("verdict/refused/%s" % kind, "valid write refused with %r" % (("%08x" % code) if isinstance(code, int) else code)); return
+                elif exp[0] == "abort":
+                    if code is None:
+                        fail("verdict/accepted/%s/%s" % (kind, state[0]), "write violating the preconditions was accepted"); return
+                    if exp[1] is not None and code != exp[1]:
+                        fail("verdict/code/%s" % kind, "abort code %s, reference %08x" % (("%08x" % code) if isinstance(code, int) else code, exp[1])); return
                 if code is None:
-                    fail("verdict/accepted/%s/%s" % (kind, state[0]), "write violating the preconditions was accepted"); return
-                if exp[1] is not None and code != exp[1]:
-                    fail("verdict/code/%s" % kind, "abort code %s, reference %08x" % (("%08x" % code) if isinstance(code, int) else code, exp[1])); return
-            if code is None:
-                store(p, sub, value, kind)
-                nacc += 1
-            else:
-                nref += 1
-            # read back
-            v2, _ = S.sdo_read(sim, nid, idx, sub)
-            if v2 != stored(p, sub, kind):
-                fail("readback/%s" % ("refused-changed" if code is not None else "accepted-not-stored"),
-                     "%04x:%d reads %r after the write, reference %x (before: %x)" % (idx, sub, v2, stored(p, sub, kind), old)); return
-            if code is None and kind == "cob" and w.mode == OP:
-                if not check_activation(w, sim, p, fail):
-                    return
+                    store(p, sub, value, kind)
+                    nacc += 1
+                else:
+                    nref += 1
+                # read back
+                v2, _ = S.sdo_read(sim, nid, idx, sub)
+                if v2 != stored(p, sub, kind):
+                    fail("readback/%s" % ("refused-changed" if code is not None else "accepted-not-stored"),
+                         "%04x:%d reads %r after the write, reference %x (before: %x)" % (idx, sub, v2, stored(p, sub, kind), old)); return
+                if code is None and kind == "cob" and w.mode == OP:
+                    if not check_activation(w, sim, p, fail):
+                        return
         res.evals += 1
         res.counters["accepted"] += nacc
         res.counters["refused"] += nref
